@@ -9,14 +9,17 @@
 (*     prices[t]  = [next, list = <<[r, p]>>]   keeper/prices.go            *)
 (*     nonce[<<v,f>>]                            keeper/nonce.go             *)
 (*     rmsgs[b], rmIdx                           recent_msg.go, index        *)
-(*     rparams (set of blocks), rpIdx            recent_params.go, index     *)
+(*     rparams[b] = feeders of the params committed at block b, rpIdx        *)
+(*     kfd = feeders of the stored Params        params.go                   *)
 (*     vub                                       validator_update_block.go   *)
 (*   process-local (package variables of keeper/single.go, hook H1)         *)
 (*     rounds[f] = [base, next, status]          aggregator/context.go       *)
 (*     aggs[f]   = worker (filter, calculator, aggregator)                   *)
-(*     cmsgs, cvu, cpu                           cache/caches.go             *)
+(*     cmsgs, cvu, cpu, cfd (cached params item) cache/caches.go             *)
+(*     c.fd = feeders of agc.params (the params the aggregator works with)   *)
 (*     upd                                       updatedFeederIDs            *)
-(*   plus h (height of the block being executed) and c (the configuration). *)
+(*   plus h (height of the block being executed), c (the configuration) and  *)
+(*   pw (current validator powers: x/dogfood's set = agc.validatorsPower).   *)
 (* Entry points are FUNCTIONS transcribed step by step from the Go code:    *)
 (*   DeliverTx  ante (IncrementSequenceDecorator: nonces) + msg_server_     *)
 (*              create_price.go + aggregator/*.go                            *)
@@ -29,13 +32,25 @@
 (* (no MsgUpdateParams, no dogfood validator update): DESIGN.md 5/C12.      *)
 (*                                                                         *)
 (* FIX is a set of names of repairs applied to the MODEL (DESIGN 3.1,       *)
-(* "deviations are named").  FIX = {} is the code as it is; trace           *)
-(* validation always uses FIX = {}.  With every fix on, the C12/C14         *)
-(* invariants hold in the bounded model.                                    *)
+(* "deviations are named").  FIX = {} is the pinned snapshot d81977c; trace  *)
+(* validation uses the set of the current tree.  With every fix on, the     *)
+(* C12/C14 invariants hold in the bounded model.                            *)
 (*   "L7"     a failed tx also restores the process-local state             *)
 (*   "L8"     recache replays cached messages with distinct nonces          *)
-(*   "L25"    the finalising message stays in the replay log                *)
+(*   "L25"    the finalising message stays in the replay log (first         *)
+(*            proposal; changes what an existing unit test asserts)         *)
+(*   "L25S"   recache closes a rebuilt round whose id is already stored     *)
+(*            (second proposal, fix-F-C14-L25-L8-v2.patch)                  *)
 (*   "FROMTO" recache prepares the rounds also when its window is empty     *)
+(*            (exocore c90bb94)                                             *)
+(*   "WINDOW" recache computes its window from the stored MaxNonce, not     *)
+(*            from the package default 3 (exocore 686d836)                  *)
+(*   "L26"    cache pruning does not wrap around in the first blocks        *)
+(*            (exocore a7fa8b9)                                             *)
+(*   "RPNIL"  cacheParams.commit keeps the params of the index entry it     *)
+(*            keeps (proposal fix-F-C11-RPNIL.patch)                        *)
+(* The CURRENT tree is FIX = {"FROMTO", "WINDOW", "L26"} (Trace_Oracle.cfg, *)
+(* MC_Oracle_gen*.cfg).                                                     *)
 (***************************************************************************)
 EXTENDS Num, Sequences, FiniteSets, TLC, SequencesExt, FiniteSetsExt, Folds
 
@@ -78,24 +93,24 @@ TokOf(c, f) == c.fd[f].tok
 StatusOpen == 1
 StatusClosed == 2
 
-KVFields == {"prices", "nonce", "rmsgs", "rmIdx", "rparams", "rpIdx", "vub"}
+KVFields == {"prices", "nonce", "rmsgs", "rmIdx", "rparams", "rpIdx", "vub", "kfd"}
 
 \* the persisted part of B with everything else of A
 WithKVOf(A, B) == [A EXCEPT !.prices = B.prices, !.nonce = B.nonce, !.rmsgs = B.rmsgs, !.rmIdx = B.rmIdx,
-                            !.rparams = B.rparams, !.rpIdx = B.rpIdx, !.vub = B.vub]
+                            !.rparams = B.rparams, !.rpIdx = B.rpIdx, !.vub = B.vub, !.kfd = B.kfd]
 \* the process-local part of B with everything else of A
-WithMemOf(A, B) == [A EXCEPT !.rounds = B.rounds, !.aggs = B.aggs, !.cmsgs = B.cmsgs, !.cvu = B.cvu, !.cpu = B.cpu, !.upd = B.upd]
+WithMemOf(A, B) == [A EXCEPT !.rounds = B.rounds, !.aggs = B.aggs, !.cmsgs = B.cmsgs, !.cvu = B.cvu, !.cpu = B.cpu, !.upd = B.upd, !.cfd = B.cfd, !.c = B.c]
 
 (***************************************************************************)
 (* genesis: InitChain + BeginBlock(1) (initAggregatorContext:               *)
 (* PrepareRoundEndBlock(0) is a no-op, both cache flags are set)            *)
 (***************************************************************************)
 InitState(c) ==
-  [ h |-> 1, c |-> c,
+  [ h |-> 1, c |-> c, pw |-> c.pw,
     prices |-> [t \in TOKENS |-> IF c.gen[t] > 0 THEN [next |-> 2, list |-> <<[r |-> 1, p |-> Some(NC(c.gen[t]))]>>]
                                  ELSE [next |-> 1, list |-> <<>>]],
-    nonce |-> <<>>, rmsgs |-> <<>>, rmIdx |-> <<>>, rparams |-> {}, rpIdx |-> <<>>, vub |-> 0,
-    rounds |-> <<>>, aggs |-> <<>>, cmsgs |-> <<>>, cvu |-> TRUE, cpu |-> TRUE, upd |-> <<>> ]
+    nonce |-> <<>>, rmsgs |-> <<>>, rmIdx |-> <<>>, rparams |-> <<>>, rpIdx |-> <<>>, vub |-> 0, kfd |-> c.fd,
+    rounds |-> <<>>, aggs |-> <<>>, cmsgs |-> <<>>, cvu |-> TRUE, cpu |-> TRUE, cfd |-> c.fd, upd |-> <<>> ]
 
 (***************************************************************************)
 (* worker = filter + calculator + aggregator   (aggregator/worker.go)       *)
@@ -194,7 +209,7 @@ NoItem == [has |-> FALSE, tok |-> "", price |-> N0, round |-> 0]
 \* AggregatorContext.FillPrice (context.go).  Returns the state (process-local part changed),
 \* the final price item, the filtered list and what happens to the message cache.
 FillPrice(S, m) ==
-  LET c  == S.c
+  LET c  == [S.c EXCEPT !.pw = S.pw]   \* thresholds and report powers use the CURRENT validator powers
       f  == m.f
       w0 == IF f \in DOMAIN S.aggs THEN S.aggs[f] ELSE W0
       S0 == [S EXCEPT !.aggs = Put(S.aggs, f, w0)]
@@ -292,9 +307,9 @@ DeliverTx(S, msgs) ==
 (***************************************************************************)
 (* EndBlock (x/oracle/module.go) + Commit + BeginBlock of the next height   *)
 (***************************************************************************)
-\* AggregatorContext.SealRound(ctx at height h, force = FALSE).  Go iterates a map; the body for
+\* AggregatorContext.SealRound(ctx at height h, force).  Go iterates a map; the body for
 \* one feeder touches only that feeder's entries, so the order is irrelevant (fold in id order).
-SealRound(S, h) ==
+SealRound(S, h, force) ==
   LET c == S.c
       step(acc, f) ==
         IF f \notin DOMAIN acc.rounds THEN acc ELSE
@@ -302,7 +317,7 @@ SealRound(S, h) ==
             fd == c.fd[f]
             expired == fd.end > 0 /\ h >= fd.end
             oow == h - r.base >= c.mn
-            a1 == IF r.status = StatusOpen /\ (expired \/ oow)
+            a1 == IF r.status = StatusOpen /\ (expired \/ oow \/ force)
                   THEN [rounds |-> IF expired THEN Del(acc.rounds, f) ELSE [acc.rounds EXCEPT ![f].status = StatusClosed],
                         aggs |-> Del(acc.aggs, f), failed |-> Append(acc.failed, fd.tok), sealed |-> Append(acc.sealed, f)]
                   ELSE acc
@@ -331,11 +346,12 @@ Prepare(rounds, aggs, block, c) ==
            ELSE acc
   IN FoldLeft(step, [rounds |-> rounds, aggs |-> aggs, new |-> <<>>], FORD)
 
-\* cache.cacheMsgs.commit: uint64 `block - MaxNonce` wraps for block < MaxNonce (lead L26): then
-\* no index entry is "> threshold" and every older entry is pruned
+\* cache.cacheMsgs.commit.  Snapshot d81977c: uint64 `block - MaxNonce` wraps for block < MaxNonce (lead
+\* L26): no index entry is "> threshold" and every older entry is pruned.  Since a7fa8b9 ("L26" in FIX) the
+\* threshold is 0 for block <= MaxNonce.
 CommitMsgs(S, h) ==
   LET idx == S.rmIdx
-      keep(b) == h >= S.c.mn /\ b > h - S.c.mn
+      keep(b) == IF "L26" \in FIX THEN b > (IF h > S.c.mn THEN h - S.c.mn ELSE 0) ELSE h >= S.c.mn /\ b > h - S.c.mn
       firstKept == {i \in DOMAIN idx : keep(idx[i])}
       n == IF firstKept = {} THEN Len(idx) ELSE Min(firstKept) - 1    \* number of pruned leading entries
       pruned == {idx[i] : i \in 1..n}
@@ -346,27 +362,40 @@ CommitMsgs(S, h) ==
 \* cache.cacheParams.commit (same wrap with >=; keeps the last index entry)
 CommitParams(S, h) ==
   LET idx == S.rpIdx
-      keep(b) == h >= S.c.mn /\ b >= h - S.c.mn
+      keep(b) == IF "L26" \in FIX THEN b >= (IF h > S.c.mn THEN h - S.c.mn ELSE 0) ELSE h >= S.c.mn /\ b >= h - S.c.mn
       firstKept == {i \in DOMAIN idx : keep(idx[i])}
       n0 == IF firstKept = {} THEN Len(idx) ELSE Min(firstKept) - 1
       pruned == {idx[i] : i \in 1..n0}
-      n == IF n0 > 0 /\ n0 = Len(idx) THEN n0 - 1 ELSE n0
-  IN [S EXCEPT !.rparams = (@ \ pruned) \cup {h},
+      \* "RPNIL": always keep the newest of the old entries (recache needs the params in force before its first block)
+      n == IF "RPNIL" \in FIX THEN (IF n0 > 0 THEN n0 - 1 ELSE 0) ELSE IF n0 > 0 /\ n0 = Len(idx) THEN n0 - 1 ELSE n0
+      \* the code deletes the store entries of ALL n0 leading index entries and only then keeps the last index
+      \* entry (`i--`): the index can name a block whose params are gone, and recache can be left without any
+      \* params older than its first replayed block (agc.params nil).  "RPNIL" in FIX: delete only what leaves the index.
+      gone == IF "RPNIL" \in FIX THEN {idx[i] : i \in 1..n} ELSE pruned
+  IN [S EXCEPT !.rparams = Put(RestrictTo(@, DOMAIN @ \ gone), h, S.cfd),
                !.rpIdx = Append(SubSeq(idx, n + 1, Len(idx)), h),
-               !.cpu = FALSE]
+               !.cpu = FALSE,
+               !.c.fd = S.cfd]      \* module.go: paramsUpdated -> agc.SetParams(cached params)
 
-EndBlock(S) ==
+\* vu = the validator updates x/dogfood produced in this block (function validator -> new power, <<>> = none):
+\* the cache of validators is updated (power 0 removes), the aggregator gets the new powers and every open
+\* round is force-sealed; the validator-update block is stored by CommitCache.
+ApplyVU(pw, vu) == LET m == [v \in DOMAIN pw \cup DOMAIN vu |-> IF v \in DOMAIN vu THEN vu[v] ELSE pw[v]]
+                   IN RestrictTo(m, {v \in DOMAIN m : m[v] # 0})
+EndBlock(S, vu) ==
   LET c  == S.c
       h  == S.h
-      sr == SealRound(S, h)
-      S1 == [S EXCEPT !.rounds = sr.rounds, !.aggs = sr.aggs]
+      S0 == IF vu = <<>> THEN S
+            ELSE [S EXCEPT !.pw = ApplyVU(S.pw, vu), !.cvu = @ \/ ApplyVU(S.pw, vu) # S.pw]
+      sr == SealRound(S0, h, vu # <<>>)
+      S1 == [S0 EXCEPT !.rounds = sr.rounds, !.aggs = sr.aggs]
       S2 == FoldLeft(LAMBDA acc, f : RemoveNonces(acc, f), S1, sr.sealed)
       S3 == FoldLeft(LAMBDA acc, t : GrowRoundID(acc, t), S2, sr.failed)
       S4 == IF S3.cmsgs # <<>> THEN CommitMsgs(S3, h) ELSE S3
       S5 == IF S4.cvu THEN [S4 EXCEPT !.vub = h, !.cvu = FALSE] ELSE S4
       S6 == IF S5.cpu THEN CommitParams(S5, h) ELSE S5
       S7 == [S6 EXCEPT !.upd = <<>>]
-      pr == Prepare(S7.rounds, S7.aggs, h, c)
+      pr == Prepare(S7.rounds, S7.aggs, h, S7.c)
       S8 == [S7 EXCEPT !.rounds = pr.rounds, !.aggs = pr.aggs]
       S9 == FoldLeft(LAMBDA acc, f : AddZeroNonces(acc, f), S8, pr.new)
   IN [S9 EXCEPT !.h = h + 1]
@@ -376,42 +405,91 @@ EndBlock(S) ==
 (* them in the BeginBlock of height H from the store                        *)
 (* (keeper/single.go: recacheAggregatorContext, then Cache.SkipCommit)      *)
 (***************************************************************************)
-\* `from` is computed from the package variable common.MaxNonce BEFORE the stored params are loaded
-\* (setCommonParams runs later in the function): in a fresh process that is the compiled-in default 3,
-\* whatever Params.MaxNonce is.
+\* Snapshot d81977c: `from` is computed from the package variable common.MaxNonce BEFORE the stored params
+\* are loaded (setCommonParams runs later in the function): in a fresh process that is the compiled-in
+\* default 3, whatever Params.MaxNonce is.  Since 686d836 ("WINDOW" in FIX) the stored MaxNonce is used.
 DefaultMaxNonce == 3
+ReplayFrom0(S) == S.h - (IF "WINDOW" \in FIX THEN S.c.mn ELSE DefaultMaxNonce) + 1
+\* first block replayed by recache
+ReplayFrom(S) == IF S.vub >= ReplayFrom0(S) THEN S.vub + 1 ELSE ReplayFrom0(S)
+
+\* "L25S" (proposal fix-F-C14-L25-L8-v2.patch): AggregatorContext.CloseFinalizedRounds - a rebuilt open round
+\* whose round id is already recorded in the store is closed and its worker dropped
+CloseFinalized(A) ==
+  IF "L25S" \notin FIX THEN A ELSE
+  LET fin == {f \in DOMAIN A.rounds : A.rounds[f].status = StatusOpen /\ A.prices[TokOf(A.c, f)].next > A.rounds[f].next}
+  IN [A EXCEPT !.rounds = [f \in DOMAIN @ |-> IF f \in fin THEN [@[f] EXCEPT !.status = StatusClosed] ELSE @[f]],
+               !.aggs = RestrictTo(@, DOMAIN @ \ fin)]
+
+\* recache works with the params it finds in the RecentParams log; agc.params is nil until one is selected.
+\* With nil params PrepareRoundEndBlock does nothing (protobuf getter on a nil pointer), but newWorker
+\* (GetTokenInfo) and SealRound's feeder lookup dereference it: PANIC in BeginBlock.
+WithFd(S, fd) == [S EXCEPT !.c.fd = fd]
+MaxOf(B) == CHOOSE x \in B : \A y \in B : y <= x
 
 Recache(S) ==
-  LET c  == S.c
-      H  == S.h
-      from0 == H - DefaultMaxNonce + 1
+  LET H  == S.h
+      from0 == ReplayFrom0(S)
       to == H
-      E  == [S EXCEPT !.rounds = <<>>, !.aggs = <<>>, !.cmsgs = <<>>, !.cvu = FALSE, !.cpu = FALSE, !.upd = <<>>]
-  IN IF S.vub = 0 \/ S.rparams = {} THEN
-       \* first start: initAggregatorContext
-       LET pr == Prepare(<<>>, <<>>, H - 1, c) IN [E EXCEPT !.rounds = pr.rounds, !.aggs = pr.aggs, !.cvu = TRUE, !.cpu = TRUE]
+      \* caches after recache: params item = the stored params (AddCache(ItemP(GetParams))), flags cleared by SkipCommit
+      E  == [S EXCEPT !.rounds = <<>>, !.aggs = <<>>, !.cmsgs = <<>>, !.cvu = FALSE, !.cpu = FALSE, !.upd = <<>>, !.cfd = S.kfd]
+      \* the last lines of recache: agc.params := stored params
+      Fin(A) == CloseFinalized(WithFd(A, S.kfd))
+      Ok(A) == [st |-> Fin(A), err |-> ""]
+  IN IF S.vub = 0 \/ DOMAIN S.rparams = {} THEN
+       \* first start: initAggregatorContext (params from the store)
+       LET pr == Prepare(<<>>, <<>>, H - 1, WithFd(S, S.kfd).c)
+       IN [st |-> [WithFd(E, S.kfd) EXCEPT !.rounds = pr.rounds, !.aggs = pr.aggs, !.cvu = TRUE, !.cpu = TRUE], err |-> ""]
      ELSE
        LET from == IF S.vub >= from0 THEN S.vub + 1 ELSE from0 IN
        IF from >= to THEN
-         IF "FROMTO" \in FIX THEN LET pr == Prepare(<<>>, <<>>, to - 1, c) IN [E EXCEPT !.rounds = pr.rounds, !.aggs = pr.aggs]
-         ELSE E
+         \* params = the newest entry of the log
+         LET fd == S.rparams[MaxOf(DOMAIN S.rparams)] IN
+         IF "FROMTO" \in FIX THEN LET pr == Prepare(<<>>, <<>>, to - 1, WithFd(S, fd).c) IN Ok([E EXCEPT !.rounds = pr.rounds, !.aggs = pr.aggs])
+         ELSE Ok(E)
        ELSE
-         LET block(acc, b) ==
-               LET pr == Prepare(acc.rounds, acc.aggs, b - 1, c)
-                   A1 == [acc EXCEPT !.rounds = pr.rounds, !.aggs = pr.aggs]
+         LET \* params selection: the newest logged params older than block b and newer than the last selection
+             pick(acc, b) == LET B == {x \in DOMAIN S.rparams : x < b /\ x > acc.prev} IN
+                             IF B = {} THEN acc ELSE [acc EXCEPT !.prev = MaxOf(B), !.nil = FALSE, !.A = WithFd(@, S.rparams[MaxOf(B)])]
+             block(acc0, b) ==
+               IF acc0.panic THEN acc0 ELSE
+               LET acc == pick(acc0, b)
+                   c  == acc.A.c
+                   pr == IF acc.nil THEN [rounds |-> acc.A.rounds, aggs |-> acc.A.aggs] ELSE Prepare(acc.A.rounds, acc.A.aggs, b - 1, c)
+                   A1 == [acc.A EXCEPT !.rounds = pr.rounds, !.aggs = pr.aggs]
                    msgs == IF b \in DOMAIN S.rmsgs THEN S.rmsgs[b] ELSE <<>>
-                   \* replayed messages carry no nonce (0) and no base block; errors are ignored
-                   fill(a, i) == FillPrice(a, [v |-> msgs[i].v, f |-> msgs[i].f, base |-> 0, ps |-> msgs[i].ps,
-                                               nonce |-> IF "L8" \in FIX THEN b * 1000 + i ELSE 0]).S
-                   A2 == FoldLeft(fill, A1, [i \in DOMAIN msgs |-> i])
-                   sr == SealRound(A2, b)
-               IN [A2 EXCEPT !.rounds = sr.rounds, !.aggs = sr.aggs]
-             R  == FoldLeft(block, E, SeqOfRange(from, to - 1))
-             pr == Prepare(R.rounds, R.aggs, to - 1, c)
-         IN [R EXCEPT !.rounds = pr.rounds, !.aggs = pr.aggs]
+                   \* replayed messages carry no base block and nonce 0 ("L8": 1, 2, ... per validator and feeder);
+                   \* errors are ignored, panics are not
+                   fill(a, i) ==
+                     IF a.panic THEN a ELSE
+                     LET k  == <<msgs[i].v, msgs[i].f>>
+                         n  == IF k \in DOMAIN a.rn THEN a.rn[k] + 1 ELSE 1
+                         fp == FillPrice(a.A, [v |-> msgs[i].v, f |-> msgs[i].f, base |-> 0, ps |-> msgs[i].ps,
+                                               nonce |-> IF "L8" \in FIX THEN n ELSE 0])
+                     IN [A |-> fp.S, rn |-> Put(a.rn, k, n), panic |-> acc.nil \/ fp.err = "PANIC"]
+                   A2 == FoldLeft(fill, [A |-> A1, rn |-> acc.rn, panic |-> FALSE], [i \in DOMAIN msgs |-> i])
+                   sealPanic == acc.nil /\ \E f \in DOMAIN A2.A.rounds : A2.A.rounds[f].status = StatusOpen
+                   sr == IF acc.nil THEN [rounds |-> A2.A.rounds, aggs |-> A2.A.aggs] ELSE SealRound(A2.A, b, FALSE)
+               IN [acc EXCEPT !.A = [A2.A EXCEPT !.rounds = sr.rounds, !.aggs = sr.aggs], !.rn = A2.rn, !.panic = A2.panic \/ sealPanic]
+             R0 == FoldLeft(block, [A |-> E, rn |-> <<>>, prev |-> 0, nil |-> TRUE, panic |-> FALSE], SeqOfRange(from, to - 1))
+             R1 == pick(R0, to)
+             pr == IF R1.nil THEN [rounds |-> R1.A.rounds, aggs |-> R1.A.aggs] ELSE Prepare(R1.A.rounds, R1.A.aggs, to - 1, R1.A.c)
+         IN IF R0.panic THEN [st |-> S, err |-> "PANIC"]
+            ELSE Ok([R1.A EXCEPT !.rounds = pr.rounds, !.aggs = pr.aggs])
 
-\* "L8" fix detail: replayed messages get distinct synthetic nonces (block * 1000 + index); a
-\* validator has at most MaxNonce admitted messages per round, so the filter's nonce set never fills.
+\* msg_server_update_params.go: UpdateParams restricted to "set the EndBlock of a token's (only) feeder";
+\* Params.UpdateTokenFeeder + Params.Validate, then SetParams and cs.AddCache(ItemP)
+UpdateParams(S, a) ==
+  LET h  == S.h
+      tf == S.kfd[a.f]
+      bad == IF tf.start > h THEN a.end = 0 \/ a.end <= h           \* not started yet: EndBlock must lie in the future
+             ELSE IF tf.end = 0 \/ tf.end > h THEN a.end = 0 \/ a.end <= h   \* running
+             ELSE TRUE                                             \* stopped: only a new feeder may follow (not in the alphabet)
+      nf == [tf EXCEPT !.end = a.end]
+      invalid == nf.end > 0 /\ (nf.start >= nf.end \/ (nf.end - nf.start) % nf.iv < S.c.mn)
+  IN IF bad THEN [st |-> S, err |-> "invalid tokenFeeder to update"]
+     ELSE IF invalid THEN [st |-> S, err |-> "invalid params"]
+     ELSE LET fd == [S.kfd EXCEPT ![a.f] = nf] IN [st |-> [S EXCEPT !.kfd = fd, !.cfd = fd, !.cpu = TRUE], err |-> ""]
 
 (***************************************************************************)
 (* entry point table                                                        *)
@@ -419,7 +497,8 @@ Recache(S) ==
 Apply(S, ev, a) ==
   IF ev = "Tx" THEN DeliverTx(S, a.msgs)
   ELSE IF ev = "EndBlock" THEN
-    LET E == EndBlock(S) IN [st |-> IF a.restart THEN Recache(E) ELSE E, err |-> ""]
+    LET E == EndBlock(S, a.vu) IN IF a.restart THEN Recache(E) ELSE [st |-> E, err |-> ""]
+  ELSE IF ev = "Upd" THEN UpdateParams(S, a)
   ELSE [st |-> S, err |-> "unknown event"]
 
 (***************************************************************************)
@@ -466,6 +545,6 @@ AddSubs(subs, c, h, msgs) ==
 (* PROPERTY C14 - what a node shows to the outside                          *)
 (***************************************************************************)
 Stored(S) == [prices |-> S.prices, nonce |-> S.nonce, rmsgs |-> S.rmsgs, rmIdx |-> S.rmIdx,
-              rparams |-> S.rparams, rpIdx |-> S.rpIdx, vub |-> S.vub]
-Mem(S) == [rounds |-> S.rounds, aggs |-> S.aggs, cmsgs |-> S.cmsgs, cvu |-> S.cvu, cpu |-> S.cpu, upd |-> S.upd]
+              rparams |-> S.rparams, rpIdx |-> S.rpIdx, vub |-> S.vub, kfd |-> S.kfd]
+Mem(S) == [rounds |-> S.rounds, aggs |-> S.aggs, cmsgs |-> S.cmsgs, cvu |-> S.cvu, cpu |-> S.cpu, upd |-> S.upd, cfd |-> S.cfd, afd |-> S.c.fd]
 =============================================================================
